@@ -176,6 +176,19 @@ pub fn cases<T: KS + Send + Sync>(out: &mut Out, rng0: &mut Rng, tier: &Tier) {
                 }
             }
         }
+        // the crate's own producer of censor lists: tips shorter than a threshold (CleanGraph::find_bad_nodes)
+        {
+            let thr = k + rng.below(2 * k + 2);
+            let gb = clone_base(&base);
+            let bad = guard(std::panic::AssertUnwindSafe(move || {
+                let dg = gb.finish();
+                debruijn::clean_graph::CleanGraph::new(|nd: &debruijn::graph::Node<'_, T, Pay>| nd.len() < thr).find_bad_nodes(&dg)
+            }));
+            out.case("r.find_bad_nodes", l(vec![nu(thr), in_v.clone()]), opt(bad.as_ref().map(|v| l(v.iter().map(|x| nu(*x)).collect()))));
+            if let Some(v) = bad {
+                censors.push(Some(v));
+            }
+        }
         for censor in censors.iter() {
             let cv = censor_v(censor);
             let trivial_censor = censor.as_ref().map_or(true, |c| c.is_empty());
